@@ -601,7 +601,12 @@ def build(r) -> Built:
 
     # derive_from[e][i]: the earlier epoch whose path end the path of (e, i) is chained on, or None. Only ends that are cast
     # results, exist (root used in that epoch) and are defined at the function's top level qualify.
+    # A view derived from a cast value denotes that cast value's buffer (realize-memref-casts may even merge the two: the
+    # ApplyLayoutCast* patterns erase a layout cast and hand its users the value it was chained on). So the epochs of one
+    # derivation FAMILY (fam) count as ONE use span of the base cast buffer: no epoch in between may touch the root through a
+    # path outside the family, and a read through another path must come after the last writer of the whole family.
     used_e = [used_roots(ep["stmts"]) for ep in r["epochs"]]
+    fam: list = []
     derive_from: list = []
     for e, ep in enumerate(r["epochs"]):
         row = []
@@ -612,12 +617,14 @@ def build(r) -> Built:
                 cands = []
                 for e2 in range(e):
                     p2 = r["epochs"][e2]["paths"][i % len(r["epochs"][e2]["paths"])]
-                    if i in used_e[e2] and (derive_from[e2][i] is not None or (casts_of(i, p2) and p2.get("def") != "stmt")):
+                    if i in used_e[e2] and (derive_from[e2][i] is not None or (casts_of(i, p2) and p2.get("def") != "stmt")) \
+                            and all(i not in used_e[e3] or fam[e3][i] == fam[e2][i] for e3 in range(e2 + 1, e)):
                         cands.append(e2)
                 if cands:
                     src = cands[int(path["base"]) % len(cands)]
             row.append(src)
         derive_from.append(row)
+        fam.append([fam[row[i]][i] if row[i] is not None else e for i in range(nroots)])
 
     pinfo: list = []
     for e, ep in enumerate(r["epochs"]):
@@ -737,7 +744,8 @@ def build(r) -> Built:
             return False
         if life == "prog":
             return all(lastw[e2][i] < 0 for e2 in range(e + 1, len(lastw)))
-        return True
+        # later epochs of the same derivation family use (possibly) the same buffer
+        return all(lastw[e2][i] < 0 for e2 in range(e + 1, len(lastw)) if fam[e2][i] == fam[e][i])
 
     bare_used = [False] * nroots
     gstmt = [0]  # number of the current top-level statement, counted over all epochs
